@@ -170,18 +170,8 @@ assert_eq!(Fix::from_num(7.5).div_euclid(Fix::from_num(2)), Fix::from_num(3));
 ";
                 #[inline]
                 pub fn div_euclid(self, rhs: $Fixed<Frac>) -> $Fixed<Frac> {
-                    let q = (self / rhs).round_to_zero();
-                    if_signed! {
-                        $Signedness;
-                        if (self % rhs).is_negative() {
-                            // add −1 instead of subtracting 1: −1 can be representable when 1 is not
-                            return if rhs.is_positive() {
-                                q + Self::from_num(-1)
-                            } else {
-                                q + Self::from_num(1)
-                            };
-                        }
-                    }
+                    let (q, overflow) = self.overflowing_div_euclid(rhs);
+                    debug_assert!(!overflow, "overflow");
                     q
                 }
             }
@@ -341,18 +331,11 @@ assert_eq!(Fix::max_value().checked_div_euclid(Fix::from_num(0.25)), None);
 ";
                 #[inline]
                 pub fn checked_div_euclid(self, rhs: $Fixed<Frac>) -> Option<$Fixed<Frac>> {
-                    let q = self.checked_div(rhs)?.round_to_zero();
-                    if_signed! {
-                        $Signedness;
-                        if (self % rhs).is_negative() {
-                            return if rhs.is_positive() {
-                                q.checked_add(Self::checked_from_num(-1)?)
-                            } else {
-                                q.checked_add(Self::checked_from_num(1)?)
-                            };
-                        }
-                    }
-                    Some(q)
+                    // The Euclidean quotient is an integer; take it from the integer division of
+                    // the bits, so that a quotient that fits is found even when the fixed-point
+                    // quotient of the operands (which has a fractional part) does not fit.
+                    let q = self.to_bits().checked_div_euclid(rhs.to_bits())?;
+                    Self::checked_from_num(q)
                 }
             }
 
@@ -835,7 +818,11 @@ assert_eq!(Fix::max_value().overflowing_div_euclid(Fix::from_num(0.25)), (wrappe
 ";
                 #[inline]
                 pub fn overflowing_div_euclid(self, rhs: $Fixed<Frac>) -> ($Fixed<Frac>, bool) {
-                    let (mut q, overflow) = self.overflowing_div(rhs);
+                    if let Some(q) = self.checked_div_euclid(rhs) {
+                        return (q, false);
+                    }
+                    let (mut q, _) = self.overflowing_div(rhs);
+                    let overflow = true;
                     q = q.round_to_zero();
                     if_signed! {
                         $Signedness;
